@@ -157,6 +157,8 @@ def root_cause(ast, univ, nkeys):
         return "missing-label"
     if univ == "S":
         return "label-key-suffix-of-another"
+    if univ == "D" and ast["kind"] == "bin" and ast["vm"]["mode"] != "default":
+        return "label-value-nonword-char"
     if ast["kind"] == "bin" and ast["vm"]["mode"] == "default" and ast["l"]["aop"] == "none" and ast["r"]["aop"] == "none" \
             and value_keys(ast["l"]["sel"]) != value_keys(ast["r"]["sel"]):
         return "binop-label-order"
@@ -356,6 +358,8 @@ def slim_case(case, qtext):
 
 def run(chk):
     quick = chk.tier == "quick"
+    if os.environ.get("VERIF_SKIP_MODEL"):        # development switch (mutation runs): binding only
+        return run_binding(chk, quick)
     # ---- model
     # (coverage was run once per config while building the check: no vacuous action; it doubles the TLC time, so the
     #  quick tier runs without it and the thorough tier with it)
@@ -372,21 +376,27 @@ def run(chk):
         raise vlib.Infra("model sensitivity lost: RegisterPerSegment=FALSE no longer violates LayoutInvarianceSel")
     chk.cov["model_sensitivity"] = "RegisterPerSegment=FALSE violates LayoutInvarianceSel (expected)"
 
+    run_binding(chk, quick)
+
+
+def run_binding(chk, quick):
     # ---- behaviours
-    modH, modX, modS = (37, 7, 5) if quick else (5, 2, 1)
+    modH, modX, modS, modD = (37, 7, 5, 5) if quick else (5, 2, 1, 1)
     scenH, gh = tlc_generate_pick("Gen_MetricsQuery_scenH.cfg", chk.seed, modH)
     scenX, gx = tlc_generate_pick("Gen_MetricsQuery_scenX.cfg", chk.seed, modX)
     scenS, gs = tlc_generate_pick("Gen_MetricsQuery_scenS.cfg", chk.seed, modS)
+    scenD, gd = tlc_generate_pick("Gen_MetricsQuery_scenD.cfg", chk.seed, modD)
     lays, gl = vlib.tlc_generate("Gen_MetricsQuery", "Gen_MetricsQuery_layout.cfg" if quick else "Gen_MetricsQuery_layout_deep.cfg", timeout=1500)
     chk.add_tlc("Gen_MetricsQuery_scenH", gh, "scenario generation, homogeneous universe (%d scenarios after the seed filter)" % len(scenH))
     chk.add_tlc("Gen_MetricsQuery_scenX", gx, "scenario generation, missing-label universe (%d)" % len(scenX))
     chk.add_tlc("Gen_MetricsQuery_scenS", gs, "scenario generation, suffix-key universe (%d)" % len(scenS))
+    chk.add_tlc("Gen_MetricsQuery_scenD", gd, "scenario generation, universe with '-' in label values (%d)" % len(scenD))
     chk.add_tlc("Gen_MetricsQuery_layout", gl, "layout histories (%d)" % len(lays))
-    if not scenH or not lays or not scenX or not scenS:
+    if not scenH or not lays or not scenX or not scenS or not scenD:
         raise vlib.Infra("no behaviours generated (H=%d X=%d S=%d layouts=%d)" % (len(scenH), len(scenX), len(scenS), len(lays)))
 
     rnd = random.Random(chk.seed)
-    nH, nX, nS = (22, 6, 4) if quick else (260, 40, 20)
+    nH, nX, nS, nD = (22, 6, 4, 3) if quick else (260, 40, 20, 12)
     lay_by_n = {}
     for l in lays:
         lay_by_n.setdefault(l["n"], []).append(l)
@@ -402,7 +412,8 @@ def run(chk):
 
     cases = []
     idx = 0
-    for univ, scens, n, nsub in (("H", scenH, nH, 60 if quick else 120), ("X", scenX, nX, 40), ("S", scenS, nS, 40)):
+    for univ, scens, n, nsub in (("H", scenH, nH, 60 if quick else 120), ("X", scenX, nX, 40), ("S", scenS, nS, 40),
+                                  ("D", scenD, nD, 40)):
         scens = sorted(scens, key=lambda s: json.dumps(s["idx"]) + s["grid"])
         chosen = vlib.sample(scens, n, chk.seed * 31 + len(univ))
         if len(chosen) < n:
@@ -437,7 +448,7 @@ def run(chk):
                 "layout": [a["a"] if a["a"] != "ingest" else "i%d@%d" % (a["i"], a["t"]) for a in c0["hist"]],
                 "queries": [{"promql": q["text"], "expect_t0": q["expect"][0]} for q in c0["scen"]["queries"][:4]]})
     chk.cov["queries_run"] = nq
-    chk.cov["cases"] = {"H": nH, "X": nX, "S": nS}
+    chk.cov["cases"] = {"H": nH, "X": nX, "S": nS, "D": nD}
     chk.assumptions += [
         "every sample lies on the step grid and every series has exactly one sample per evaluation timestamp that is compared "
         "(timestamps whose ingest round is incomplete at a stage are not compared): lookback/staleness never decides an answer",
